@@ -56,6 +56,9 @@ struct Ghost {
     torn_at: BTreeMap<u64, u64>, // conn id -> time of the tear-down that left the link down (cleared on rejoin)
     win_injected: BTreeSet<u64>, // conn ids whose window was injected by `setlink w=` while the link was down
     last_hk: Option<u64>,        // time of the previous housekeeping tick (coverage counter only)
+    heard_at: BTreeMap<u64, u64>, // conn id -> time of the last datagram (>= 2 bytes) the harness delivered on that uplink
+    max_cto: u64,                 // largest connection timeout configured so far in this case (>= the 5000 ms default)
+    client_seen: bool,            // a non-empty datagram from the SRT client has been handed to the shell
 }
 
 struct SysComp {
@@ -377,6 +380,7 @@ struct Pre {
     gated: bool,
     score_ref: i64,
     lka: Option<u64>,
+    stamps: (bool, bool, bool, u64), // weak, loss_degraded, cc_backing_off, cc_target_bps (written by the stamping loop only)
 }
 
 fn pre_of(c: &SrtlaConnection, now: u64) -> Pre {
@@ -397,6 +401,7 @@ fn pre_of(c: &SrtlaConnection, now: u64) -> Pre {
         lrm: c.rtt.last_rtt_measurement_ms,
         last_attempt: c.reconnection.last_reconnect_attempt_ms,
         lka: c.verif_last_keepalive_sent(),
+        stamps: (c.weak, c.loss_degraded, c.cc_backing_off, c.cc_target_bps),
         gated: c.is_stall_gated(),
         score_ref: if c.connected {
             c.window as i64 / (c.in_flight_packets as i64 + c.batch_sender.queued_count() as i64 + 1).max(1)
@@ -795,6 +800,9 @@ impl SysComp {
             let cnt: usize = toks[3].parse().unwrap_or(0);
             let known_link = toks[2].parse::<u64>().ok().is_some_and(|cid| w.links.iter().any(|c| c.conn_id == cid));
             if data.len() >= 2 && known_link {
+                if let Ok(cid) = toks[2].parse::<u64>() {
+                    self.g.heard_at.insert(cid, now);
+                }
                 let pt = get_packet_type(&data).unwrap();
                 let got = client.iter().filter(|d| **d == data).count();
                 if pre_client_known && !is_internal(pt) {
@@ -817,6 +825,27 @@ impl SysComp {
         let g = &mut self.g;
         let n = w.links.len();
         let consumed_fail: Vec<u64> = pre_fail.iter().copied().filter(|id| !w.fail_pending.contains(id)).collect();
+
+        // ---------- the classifier / link-CC verdicts stamped on a link (weak, loss_degraded, cc_backing_off,
+        // cc_target_bps) are written by the housekeeping arm's stamping loop only (`setlink` here): no
+        // event-loop arm may clear or change them behind the controller's back
+        g.max_cto = g.max_cto.max(cfg.conn_timeout_ms).max(5000);
+        for i in 0..n.min(pre.len()) {
+            let c = &w.links[i];
+            if c.conn_id != pre_ids[i] {
+                continue;
+            }
+            let post = (c.weak, c.loss_degraded, c.cc_backing_off, c.cc_target_bps);
+            if post != pre[i].stamps {
+                let what = format!("link {}: (weak, loss_degraded, cc_backing_off, cc_target_bps) {:?} -> {:?} by `{}`", c.conn_id, pre[i].stamps, post, &op[..op.len().min(60)]);
+                if post.1 != pre[i].stamps.1 || post.2 != pre[i].stamps.2 || post.3 != pre[i].stamps.3 {
+                    mon.fail("C16", "verdict-changed-outside-tick", what.clone());
+                }
+                if post.0 != pre[i].stamps.0 {
+                    mon.fail("C17", "verdict-changed-outside-tick", what);
+                }
+            }
+        }
 
         // ---------- classify wire datagrams
         for (id, d) in wire {
@@ -883,6 +912,39 @@ impl SysComp {
             }
             if torn || attempt {
                 g.win_injected.remove(&c.conn_id);
+            }
+            // C06 / C08: every tear-down (timeout reconnect, failed send, REG_ERR - on a registered link or
+            // not) returns the window to 20000 with nothing in flight, logged or queued
+            if (torn || regerr_here) && (c.window != 20000 || c.in_flight_packets != 0 || !c.verif_packet_log().is_empty() || c.batch_sender.queued_count() != 0 || c.connected) {
+                let what = format!("link {} after a tear-down by `{}`: window {} in_flight {} logged {} queued {} connected {}", c.conn_id, &op[..op.len().min(60)], c.window, c.in_flight_packets, c.verif_packet_log().len(), c.batch_sender.queued_count(), c.connected);
+                mon.fail("C06", "teardown-window-not-reset", what.clone());
+                mon.fail("C08", "unclean-teardown", what);
+            }
+            if regerr_here {
+                mon.count("regerr-teardown");
+                if !pre[i].connected {
+                    mon.count("regerr-on-unregistered-link");
+                    if pre[i].window != 20000 {
+                        mon.count("regerr-on-unregistered-link-with-moved-window");
+                    }
+                }
+            }
+            // C08 detection: a connected link on which nothing has arrived for longer than the largest
+            // timeout configured so far cannot still be connected after a housekeeping pass
+            // (it may stay `connected` for a while when its reconnect attempt is still paced by the retry
+            // interval, but then it must count as timed out: no data, no keepalives, due for re-registration)
+            if kind == Kind::Hk && pre[i].connected && c.connected {
+                if let Some(h) = g.heard_at.get(&c.conn_id) {
+                    if now.saturating_sub(*h) > g.max_cto {
+                        if !c.is_timed_out(now) {
+                            mon.fail("C08", "silent-link-not-detected", format!("link {} still counts as live (connected, not timed out) after the housekeeping pass at {now} although nothing has arrived on it since {h} ({} ms > every configured timeout <= {} ms)", c.conn_id, now - h, g.max_cto));
+                        } else {
+                            mon.count("silent-connected-link-paced-retry");
+                        }
+                    } else {
+                        mon.count("connected-link-heard-within-timeout");
+                    }
+                }
             }
             // retry spacing
             if attempt && kind == Kind::Hk {
@@ -976,6 +1038,7 @@ impl SysComp {
                 if data.is_empty() {
                     return;
                 }
+                g.client_seen = true;
                 let tag = g.accepted.len();
                 g.accepted.push(data.clone());
                 g.tag_of.insert(data.clone(), tag);
@@ -1017,6 +1080,16 @@ impl SysComp {
                 }
                 if is_data {
                     g.routed_data += u64::from(!holders.is_empty() || !failed_here.is_empty());
+                }
+                // C12: with the stall guard off EVERY routing decision leaves every stall flag and latch cleared
+                if !cfg.stall_deselect {
+                    mon.count("decision-with-guard-off");
+                    for c in w.links.iter() {
+                        let p = c.verif_private();
+                        if p.stall_gated || p.stall_latched_since_ms != 0 || p.stall_recovery_since_ms != 0 || p.silence_pulled {
+                            mon.fail("C12", "sys-off-not-cleared", format!("guard off, yet after routing datagram #{tag} link {} has stall_gated={} latched_since={} recovery_since={} silence_pulled={}", c.conn_id, p.stall_gated, p.stall_latched_since_ms, p.stall_recovery_since_ms, p.silence_pulled));
+                        }
+                    }
                 }
                 let any_usable = pre.iter().enumerate().any(|(i, _)| {
                     // usable under the configured timeout (select refreshes it before deciding)
@@ -1077,6 +1150,10 @@ impl SysComp {
                     let got = w.trk.get(sq, now);
                     if got != Some(w.links[u].conn_id) {
                         mon.fail("C05", "sys-tracker-carrier", format!("data packet {sq} was routed to link {} (unique copy) but the tracker remembers {got:?}", w.links[u].conn_id));
+                        if cfg.mode.is_classic() {
+                            // the -100 of a NAK goes to the remembered carrier: a wrong memory moves the wrong window
+                            mon.fail("C10", "sys-tracker-carrier", format!("classic mode: data packet {sq} (retransmit flag {}) was routed to link {} but the tracker remembers {got:?}: a NAK for it is charged elsewhere or nowhere", is_srt_data_retransmit(&data), w.links[u].conn_id));
+                        }
                     } else {
                         mon.count("tracker-remembers-unique-carrier");
                     }
@@ -1105,7 +1182,14 @@ impl SysComp {
                 let data = parse_hex(toks[3]).unwrap_or_default();
                 let Some(i) = w.links.iter().position(|c| c.conn_id == cid) else { return };
                 if data.len() >= 2 {
+                    g.heard_at.insert(cid, now);
                     let pt = get_packet_type(&data).unwrap();
+                    // "once a client address is known": the shell has received a non-empty datagram from the
+                    // client (ghost), whatever became of that datagram
+                    if g.client_seen != pre_client_known {
+                        mon.fail("C09", "client-address-not-learned", format!("a client datagram has {}been received but the shell's client address is {}", if g.client_seen { "" } else { "not " }, if pre_client_known { "set" } else { "unset" }));
+                    }
+                    let pre_client_known = g.client_seen;
                     if pre_client_known {
                         if is_internal(pt) {
                             mon.count("uplink-internal");
@@ -1434,6 +1518,27 @@ fn gen_case(rng: &mut Rng, tier: Tier, idx: usize) -> Vec<String> {
             ops.push(format!("client {now} {}", hexs(&data_packet(1000 + k as u32, false, 32, 9_000_000 + k, rng))));
         }
         ops.push(format!("flush {now}"));
+        // the receiver reports one of them lost (moves the window of the still unregistered link), then
+        // rejects the link: a tear-down of a link that was never registered
+        if rng.chance(2, 3) {
+            now += rng.below(20);
+            let lnk = rng.range(1, n as u64);
+            let mut nak = vec![0x80, 0x03, 0, 0];
+            nak.extend_from_slice(&1000u32.to_be_bytes());
+            for j in 1..=n as u64 {
+                if j == lnk || rng.chance(1, 2) {
+                    ops.push(format!("uplink {now} {j} {}", hexs(&nak)));
+                }
+            }
+            if rng.chance(2, 3) {
+                now += rng.below(20);
+                for j in 1..=n as u64 {
+                    if rng.chance(2, 3) {
+                        ops.push(format!("uplink {now} {j} {}", hexs(&SRTLA_TYPE_REG_ERR.to_be_bytes())));
+                    }
+                }
+            }
+        }
     }
     let first = rng.below(n as u64) as usize;
     now += rng.below(50);
@@ -1685,6 +1790,27 @@ fn gen_case(rng: &mut Rng, tier: Tier, idx: usize) -> Vec<String> {
         if now.saturating_sub(last_flush) >= 15 {
             last_flush = now;
             ops.push(format!("flush {now}"));
+        }
+        // the guard is switched off at run time while a link is latched and gated; the very next datagrams
+        // are must-land ones (retransmit flag / open critical window) - every decision must clear the flags
+        if in_bh && now + 2500 > bh_until && rng.chance(1, 8) {
+            ops.push(format!("cfg classic=0 quality={} stall=0 minif=32 ceil=3000 cto=5000", rng.below(2)));
+            if rng.chance(1, 2) {
+                ops.push(format!("crit {}", now + 300));
+            }
+            for _ in 0..rng.range(1, 3) {
+                let retx = rng.chance(2, 3) && !sent.is_empty();
+                let sq = if retx { *rng.pick(&sent) } else { seq };
+                ops.push(format!("client {now} {}", hexs(&data_packet(sq, retx, 24, counter, rng))));
+                counter += 1;
+                if !retx {
+                    sent.push(seq);
+                    seq = (seq + 1) & 0x7fff_ffff;
+                }
+            }
+            if rng.chance(1, 2) {
+                ops.push(cfg_line(rng));
+            }
         }
         // duplicate probes piling up on a gated link until they reach the batch threshold THEMSELVES
         // (no flush tick in between): a long burst at one instant in the low-activity regime (batch of 4),
@@ -1963,6 +2089,13 @@ fn gen_case(rng: &mut Rng, tier: Tier, idx: usize) -> Vec<String> {
                 silent[i] = !silent[i];
                 if !silent[i] {
                     needs_rereg[i] = true;
+                    if rng.chance(1, 3) {
+                        // the path delivers just long enough for the REG3, then black-holes again: the link is
+                        // connected without ever having heard anything else
+                        ops.push(format!("uplink {now} {} {}", i + 1, hexs(&SRTLA_TYPE_REG3.to_be_bytes())));
+                        silent[i] = true;
+                        needs_rereg[i] = false;
+                    }
                 }
             }
             35 => {
@@ -2133,11 +2266,26 @@ fn gen_never_connects(rng: &mut Rng) -> Vec<String> {
             ops.push(format!("uplink {} {} {}", now + 30, j + 1, hexs(&ty.to_be_bytes())));
         }
         if rng.chance(1, 3) {
+            if rng.chance(1, 2) {
+                // every link rejected just before: nothing is selectable for the client's datagrams
+                for j in 1..=n as u64 {
+                    ops.push(format!("uplink {} {j} {}", now + 35, hexs(&SRTLA_TYPE_REG_ERR.to_be_bytes())));
+                }
+            }
             for k in 0..rng.range(1, 4) {
                 ops.push(format!("client {} {}", now + 40 + k, hexs(&data_packet(500 + (t * 8 + k) as u32, false, 32, counter, rng))));
                 counter += 1;
             }
             ops.push(format!("flush {}", now + 60));
+            if rng.chance(2, 3) {
+                // receiver traffic for the client (SRT handshake / keepalive / data): the client is known by now
+                let j = rng.range(1, n as u64);
+                let blen = *rng.pick(&[16usize, 44, 64, 100]);
+                let mut b = rng.bytes(blen);
+                let ty = *rng.pick(&[0x8000u16, 0x8001, 0x8005, 0x1234]);
+                b[..2].copy_from_slice(&ty.to_be_bytes());
+                ops.push(format!("uplink {} {j} {}", now + 70, hexs(&b)));
+            }
         }
     }
     ops.push(format!("flush {}", now + 15));
